@@ -158,6 +158,8 @@ def good_list(resp, cls):
 
 
 def good_map(resp, cls, asked):
+    if resp[0] == "echo":  # answers exactly what it was asked, with entries of its own class
+        return {u: [[resp[1], i, True] for i in resp[2]] for u in asked} if resp[1] == cls else None
     if resp[0] != "map":
         return None
     out = {}
